@@ -292,7 +292,170 @@ pub fn judge_live(c: &crate::props::fid::FCase) -> Verdict {
     Verdict::pass_c(if nt { Some(fp_json(c)) } else { None }, classes)
 }
 
+// ---------------------------------------------------------------------------
+// the whole target is killed while the dump is being taken
+// ---------------------------------------------------------------------------
+
+#[derive(Debug, Clone, PartialEq, Eq, Hash, Serialize, Deserialize)]
+pub enum KillAt {
+    Enumerated,
+    BeforeAttachOf(u16),
+    AfterAttachOf(u16),
+    Suspended,
+    /// at the k-th call on the destination (the first calls happen right after suspension)
+    DestCall(u8),
+}
+
+#[derive(Debug, Clone, PartialEq, Eq, Hash, Serialize, Deserialize)]
+pub struct KillCase {
+    pub threads: Vec<u8>,
+    pub kill_at: KillAt,
+    pub stop_failspot: bool,
+    pub with_crash: bool,
+}
+
+pub fn check_killed(c: &KillCase) -> Verdict {
+    use crate::vcore::dest::*;
+    use crate::vcore::target::*;
+    use crate::vcore::world::*;
+    use minidump_writer::verif_hooks::Point;
+    init_scratch();
+    let scratch = Target::new_scratch();
+    let mut b = Builder::new();
+    let mut ids = vec![];
+    for (i, k) in c.threads.iter().enumerate() {
+        let st = b.add_stack(2, true, 4000 + i as u64);
+        let id = b.add_thread(*k, Some(format!("k{i}").into_bytes()), st.base + 0x1000 + 8 * (i as u64 % 5), 700 + i as u64);
+        if *k == K_SPINNER {
+            b.thread_mut(id).sp = st.base + 0x1000;
+        }
+        ids.push(id);
+    }
+    let (_, words) = b.add_anon(1, 3, 0);
+    let mut n = 0;
+    for (id, k) in ids.iter().zip(c.threads.iter()) {
+        if *k == K_SPINNER {
+            b.thread_mut(*id).aux = words + 64 * n;
+            n += 1;
+        }
+    }
+    let spec = b.spec.clone();
+    let t = match Target::spawn(&spec, scratch) {
+        Ok(t) => t,
+        Err(e) => return Verdict::Inconclusive(format!("target setup: {}", e.split(':').next().unwrap_or(""))),
+    };
+    if !t.wait_settled(&spec) {
+        return Verdict::Inconclusive("target did not settle".into());
+    }
+    let pid = t.pid;
+    let tids: Vec<i32> = std::iter::once(pid).chain(ids.iter().map(|id| t.tid(*id))).collect();
+    let pick_tid = |k: u16| tids[((k as usize) * tids.len()) >> 16];
+    let mut opts = DumpOpts { blamed: pid, ..Default::default() };
+    if c.with_crash {
+        let mut s = 77u64;
+        let gregs: Vec<i64> = (0..23).map(|_| splitmix(&mut s) as i64).collect();
+        opts.crash = Some(CrashContext2 { gregs, fp: fpstate_of_fx(&sentinel_fx(5)), signo: 11, code: 1, addr: 0, tid: pid });
+    }
+    let killed = std::sync::Arc::new(std::sync::atomic::AtomicBool::new(false));
+    let kill = {
+        let killed = killed.clone();
+        move || {
+            if !killed.swap(true, std::sync::atomic::Ordering::SeqCst) {
+                unsafe { libc::kill(pid, libc::SIGKILL) };
+                // wait until the kernel has torn the process down far enough that its threads no longer run
+                for _ in 0..2000 {
+                    let st = std::fs::read_to_string(format!("/proc/{pid}/stat")).unwrap_or_default();
+                    let state = st.rsplit(')').next().and_then(|r| r.trim().chars().next()).unwrap_or('X');
+                    if state == 'Z' || state == 'X' {
+                        break;
+                    }
+                    std::thread::sleep(std::time::Duration::from_micros(200));
+                }
+            }
+        }
+    };
+    let at = match &c.kill_at {
+        KillAt::Enumerated => Some(Point::ThreadsEnumerated),
+        KillAt::BeforeAttachOf(k) => Some(Point::BeforeAttach(pick_tid(*k))),
+        KillAt::AfterAttachOf(k) => Some(Point::AfterAttach(pick_tid(*k), true)),
+        KillAt::Suspended => Some(Point::ThreadsSuspended),
+        KillAt::DestCall(_) => None,
+    };
+    let k2 = kill.clone();
+    let hook = Box::new(move |p: Point| {
+        let hit = match (&at, &p) {
+            (Some(Point::AfterAttach(a, _)), Point::AfterAttach(b, _)) => a == b,
+            (Some(a), b) => a == b,
+            _ => false,
+        };
+        if hit {
+            k2();
+        }
+    });
+    let mut w = make_writer(pid, &opts);
+    let mut dest = Dest::new(vec![], 0);
+    if let KillAt::DestCall(k) = &c.kill_at {
+        let k3 = kill.clone();
+        dest.on_call(*k as u64, Box::new(move || k3()));
+    }
+    let mask = if c.stop_failspot { FS_STOP } else { 0 };
+    let out = with_failspots(mask, || with_hook(hook, || run_dump(&mut w, &mut dest)));
+    let was_killed = killed.load(std::sync::atomic::Ordering::SeqCst);
+    let img = match out {
+        DumpOutcome::Panic(l, m) => return panic_verdict(&l, &m),
+        DumpOutcome::Err(_) => return Verdict::pass_c(if was_killed { Some(fp_json(c)) } else { None }, vec![format!("killed:{was_killed}:dump-err")]),
+        DumpOutcome::Ok(v) => v,
+    };
+    macro_rules! bad {
+        ($sig:expr, $($arg:tt)*) => { return Verdict::viol(format!("C04:killed:{}", $sig), format!($($arg)*)) };
+    }
+    let d = md::decode(&img);
+    let Some(threads) = d.threads.as_ref() else { bad!("no-thread-list", "dump returned Ok but the thread list is missing or malformed: {:?}", d.problems.first()) };
+    let mut seen = std::collections::BTreeSet::new();
+    for th in threads {
+        let tid = th.tid as i32;
+        if !tids.contains(&tid) {
+            bad!("foreign-thread", "listed thread id {tid} is not a thread of the target ({tids:?}); target killed at {:?}", c.kill_at);
+        }
+        if !seen.insert(tid) {
+            bad!("duplicate-thread", "thread {tid} listed twice");
+        }
+        let ok = th.ctx.size != 0 && (th.ctx.rva as u64 + th.ctx.size as u64) <= img.len() as u64 && md::parse_ctx(&img[th.ctx.rva as usize..(th.ctx.rva + th.ctx.size) as usize]).is_some();
+        if !ok {
+            bad!("listed-without-valid-context", "thread {tid} is listed without a valid context (target killed at {:?})", c.kill_at);
+        }
+    }
+    // omitted threads must be reported
+    let soft = crate::props::c11::soft_errors_of(&img, &d).unwrap_or(serde_json::Value::Null);
+    let mut flat = std::collections::BTreeMap::new();
+    crate::props::c11::flatten(&soft, "", &mut flat);
+    for tid in &tids {
+        if !seen.contains(tid) && !flat.keys().any(|k| k.ends_with(&format!(":{tid}"))) {
+            bad!("omitted-thread-not-reported", "thread {tid} is omitted and no soft error names it: {:?}", flat.keys().collect::<Vec<_>>());
+        }
+    }
+    Verdict::pass_c(if was_killed { Some(fp_json(c)) } else { None }, vec![format!("killed:{was_killed}:dump-ok:{}-of-{}-listed", seen.len().min(1), 1)])
+}
+
 pub fn run(ctx: &mut LaneCtx) {
+    ctx.run_sub(
+        SubSpec {
+            name: "killed-mid-dump",
+            cases: (320, 20_000),
+            rule: "targets with 1..10 parked/sleeper/spinner threads that are SIGKILLed at a generated point of the dump (threads enumerated / before or after the attach of a chosen thread / all threads suspended / k-th destination call), with and without the group stop and a crash context; oracle = the request fails, or its thread list names only threads of the target, each once, each with a valid context, and every omitted thread is named by a soft error; non-trivial = the kill point was reached; distinct = hash of case",
+            strategy: (
+                proptest::collection::vec(prop_oneof![3 => Just(crate::vcore::target::K_PARKED), 2 => Just(crate::vcore::target::K_SLEEPER), 1 => Just(crate::vcore::target::K_SPINNER)], 1..11),
+                prop_oneof![1 => Just(KillAt::Enumerated), 2 => any::<u16>().prop_map(KillAt::BeforeAttachOf), 3 => any::<u16>().prop_map(KillAt::AfterAttachOf), 3 => Just(KillAt::Suspended), 2 => (0u8..12).prop_map(KillAt::DestCall)],
+                any::<bool>(),
+                any::<bool>(),
+            )
+                .prop_map(|(threads, kill_at, stop_failspot, with_crash)| KillCase { threads, kill_at, stop_failspot, with_crash })
+                .boxed(),
+            max_shrink_iters: 100,
+            log_current: true,
+        },
+        check_killed,
+    );
     ctx.assume("live part: ground truth = sentinel registers each target thread loads before blocking (parked: raw pause syscall, rax/rcx/r11 are syscall-clobbered and excluded; spinner: pure user-space loop, all GPRs compared); x87 registers compared on their 10 significant bytes; fop/fip/fdp are CPU dependent and not compared; threads can only exit between enumeration and attach with the StopProcess fail point on");
     ctx.run_sub(
         SubSpec {
@@ -325,6 +488,7 @@ pub fn replay(sub: &str, case: &Value) -> Verdict {
     match sub {
         "pure-regs" => replay_case::<RegCase>(case, check_regs),
         "live-threads" => replay_case::<crate::props::fid::FCase>(case, judge_live),
+        "killed-mid-dump" => replay_case::<KillCase>(case, check_killed),
         _ => Verdict::Inconclusive(format!("unknown sub {sub}")),
     }
 }
